@@ -12,29 +12,36 @@ import (
 	"svcheck/report"
 )
 
-// runStraight runs fn on the inputs and returns the single path's result, or reports why there is none.
-func runStraight(p *load.Prog, r *report.Report, rule, construct string, fn *ssa.Function, setup func(it *absint.Interp) []absint.Value) *absint.PathResult {
-	var out *absint.PathResult
+// runEach runs fn on the inputs and hands every path that returns to body; the specification a body compares with
+// must be specialised to the path (sp/st below): a function with fast paths for special inputs is checked path by
+// path under each path's own constraints. Paths that do not return, and analysis events, are reported here.
+func runEach(p *load.Prog, r *report.Report, rule, construct string, fn *ssa.Function, setup func(it *absint.Interp) []absint.Value, body func(res *absint.PathResult)) {
 	n := 0
 	explore(p, absint.Config{}, fn, setup, func(res *absint.PathResult) {
 		n++
-		if n == 1 {
-			out = res
+		if n > 24 {
+			if n == 25 {
+				r.Undecided(rule, construct, p.Pos(fn.Pos()), "more than 24 paths")
+			}
+			return
 		}
+		if res.Exit != "return" {
+			r.Undecided(rule, construct, p.Pos(fn.Pos()), fmt.Sprintf("a path does not return (exit %s %s %s)", res.Exit, res.Abort, guardString(res)))
+			return
+		}
+		if reportEvents(p, r, rule, construct, res) {
+			return
+		}
+		body(res)
 	})
-	if out == nil {
+	if n == 0 {
 		r.Undecided(rule, construct, "", "no path")
-		return nil
 	}
-	if n != 1 || len(out.Guards) > 0 || out.Exit != "return" {
-		r.Undecided(rule, construct, p.Pos(fn.Pos()), fmt.Sprintf("not straight-line code (%d paths, exit %s %s %s)", n, out.Exit, out.Abort, guardString(out)))
-		return nil
-	}
-	if reportEvents(p, r, rule, construct, out) {
-		return nil
-	}
-	return out
 }
+
+// sp and st specialise a specification (polynomial / term) to the constraints of a path.
+func sp(res *absint.PathResult, q *absint.Poly) *absint.Poly { return res.It.DeepApplyPoly(q) }
+func st(res *absint.PathResult, t *absint.Term) *absint.Term { return res.It.DeepApplyTerm(t) }
 
 // arithCase is one wrapper obligation: method name, operand pattern and the expected value of the receiver.
 type arithCase struct {
@@ -83,7 +90,7 @@ func fieldArith(p *load.Prog, r *report.Report, m *elemModel, prop string) {
 		}
 		for _, pt := range pats {
 			construct := fmt.Sprintf("field.Element.%s (%s)", op.meth, pt.name)
-			res := runStraight(p, r, prop+".wrapper", construct, fn, func(it *absint.Interp) []absint.Value {
+			runEach(p, r, prop+".wrapper", construct, fn, func(it *absint.Interp) []absint.Value {
 				objs := map[string]*absint.Object{"e": m.newFE(it, "e", e0)}
 				get := func(n string) absint.Value {
 					if objs[n] == nil {
@@ -99,20 +106,18 @@ func fieldArith(p *load.Prog, r *report.Report, m *elemModel, prop string) {
 					args = append(args, get(pt.v))
 				}
 				return args
-			})
-			if res == nil {
-				continue
-			}
-			got, why := res.It.ReadMont(FP, m.limbCell(res.It.InputRoots()[0]))
-			want := op.want(val[pt.u], val[pt.v])
-			r.Check(why == "" && got.Equal(want), prop+".wrapper", construct, p.Pos(fn.Pos()), "receiver = "+want.String(), fmt.Sprintf("receiver is %v (%s), expected %s", got, why, want))
-			// operands other than the receiver keep their value
-			for _, c := range res.It.InputRoots()[1:] {
-				g, w := res.It.ReadMont(FP, m.limbCell(c))
-				if w != "" || !g.Equal(val[c.Obj.Name]) {
-					r.Fail(prop+".wrapper", construct+" operand "+c.Obj.Name, p.Pos(fn.Pos()), "an operand is modified")
+			}, func(res *absint.PathResult) {
+				got, why := res.It.ReadMont(FP, m.limbCell(res.It.InputRoots()[0]))
+				want := sp(res, op.want(val[pt.u], val[pt.v]))
+				r.Check(why == "" && got.Equal(want), prop+".wrapper", construct, p.Pos(fn.Pos()), "receiver = "+op.want(val[pt.u], val[pt.v]).String(), fmt.Sprintf("receiver is %v (%s), expected %s", got, why, want))
+				// operands other than the receiver keep their value
+				for _, c := range res.It.InputRoots()[1:] {
+					g, w := res.It.ReadMont(FP, m.limbCell(c))
+					if w != "" || !g.Equal(sp(res, val[c.Obj.Name])) {
+						r.Fail(prop+".wrapper", construct+" operand "+c.Obj.Name, p.Pos(fn.Pos()), "an operand is modified")
+					}
 				}
-			}
+			})
 		}
 	}
 }
@@ -121,21 +126,19 @@ func fieldArith(p *load.Prog, r *report.Report, m *elemModel, prop string) {
 func chainExponent(p *load.Prog, r *report.Report, m *elemModel, prop, construct string, fn *ssa.Function, f *absint.Field, setup func(it *absint.Interp, alpha *absint.Poly) ([]absint.Value, func() *absint.Cell), want *big.Int, wantName string) {
 	alpha := absint.FieldSym(f, "α")
 	var outCell func() *absint.Cell
-	res := runStraight(p, r, prop+".chain", construct, fn, func(it *absint.Interp) []absint.Value {
+	runEach(p, r, prop+".chain", construct, fn, func(it *absint.Interp) []absint.Value {
 		args, oc := setup(it, alpha)
 		outCell = oc
 		return args
+	}, func(res *absint.PathResult) {
+		got, why := res.It.ReadMont(f, outCell())
+		wantP := sp(res, alpha.Pow(want))
+		detail := ""
+		if why == "" && !got.Equal(wantP) {
+			detail = fmt.Sprintf("the chain computes %s", got)
+		}
+		r.Check(why == "" && got.Equal(wantP), prop+".chain", construct, p.Pos(fn.Pos()), fmt.Sprintf("α ↦ α^(%s): exponent computed from the chain's own code", wantName), "the addition chain does not compute α^("+wantName+"): "+detail+why)
 	})
-	if res == nil {
-		return
-	}
-	got, why := res.It.ReadMont(f, outCell())
-	wantP := alpha.Pow(want)
-	detail := ""
-	if why == "" && !got.Equal(wantP) {
-		detail = fmt.Sprintf("the chain computes %s", got)
-	}
-	r.Check(why == "" && got.Equal(wantP), prop+".chain", construct, p.Pos(fn.Pos()), fmt.Sprintf("α ↦ α^(%s): exponent computed from the chain's own %d leaf calls", wantName, res.It.LeafCalls), "the addition chain does not compute α^("+wantName+"): "+detail+why)
 }
 
 // C12: base-field layer computes exact, canonical arithmetic in F_p.
@@ -187,22 +190,22 @@ func C12(p *load.Prog, r *report.Report) {
 	roots := sqrtMinusZ()
 	u, v := absint.FieldSym(FP, "u"), absint.FieldSym(FP, "v")
 	if fn := p.Method(p.Field, "Element", "SqrtRatio"); fn != nil {
-		if res := runStraight(p, r, "C12.sqrt_ratio", "field.Element.SqrtRatio", fn, func(it *absint.Interp) []absint.Value {
+		runEach(p, r, "C12.sqrt_ratio", "field.Element.SqrtRatio", fn, func(it *absint.Interp) []absint.Value {
 			return []absint.Value{ptr(m.newFE(it, "out", pInt(FP, 0))), ptr(m.newFE(it, "u", u)), ptr(m.newFE(it, "v", v))}
-		}); res != nil {
+		}, func(res *absint.PathResult) {
 			good := false
 			if tup, ok := res.Ret.(absint.Tuple); ok && len(tup) == 2 {
 				got, _ := res.It.ReadMont(FP, m.limbCell(res.It.InputRoots()[0]))
 				flag, fok := retTerm(res.It, tup[1])
 				for _, c2 := range roots {
 					wy, wq := specSqrtRatio(u, v, c2)
-					if got != nil && fok && got.Equal(wy) && flag.Equal(wq) {
+					if got != nil && fok && got.Equal(sp(res, wy)) && flag.Equal(st(res, wq)) {
 						good = true
 					}
 				}
 			}
 			r.Check(good, "C12.sqrt_ratio", "field.Element.SqrtRatio", p.Pos(fn.Pos()), "= sqrt_ratio_3mod4 of RFC 9380 F.2.1.2 on symbolic (u, v)", "differs from RFC 9380 F.2.1.2")
-		}
+		})
 	}
 	// SqrtRatio under aliasing of receiver and arguments
 	if fn := p.Method(p.Field, "Element", "SqrtRatio"); fn != nil {
@@ -212,7 +215,7 @@ func C12(p *load.Prog, r *report.Report) {
 			if pat == "u and v are the same" || pat == "all the same" {
 				vv = u
 			}
-			if res := runStraight(p, r, "C12.sqrt_ratio", construct, fn, func(it *absint.Interp) []absint.Value {
+			runEach(p, r, "C12.sqrt_ratio", construct, fn, func(it *absint.Interp) []absint.Value {
 				uo := m.newFE(it, "u", u)
 				vo := uo
 				if vv != u {
@@ -228,7 +231,7 @@ func C12(p *load.Prog, r *report.Report) {
 					eo = m.newFE(it, "out", pInt(FP, 0))
 				}
 				return []absint.Value{ptr(eo), ptr(uo), ptr(vo)}
-			}); res != nil {
+			}, func(res *absint.PathResult) {
 				good := false
 				if tup, ok := res.Ret.(absint.Tuple); ok && len(tup) == 2 {
 					var got *absint.Poly
@@ -238,13 +241,13 @@ func C12(p *load.Prog, r *report.Report) {
 					flag, fok := retTerm(res.It, tup[1])
 					for _, c2 := range roots {
 						wy, wq := specSqrtRatio(uu, vv, c2)
-						if got != nil && fok && got.Equal(wy) && flag.Equal(wq) {
+						if got != nil && fok && got.Equal(sp(res, wy)) && flag.Equal(st(res, wq)) {
 							good = true
 						}
 					}
 				}
 				r.Check(good, "C12.sqrt_ratio", construct, p.Pos(fn.Pos()), "= sqrt_ratio_3mod4 also when operands share storage", "the result is wrong when the receiver or the operands share storage (an operand is overwritten before its last use)")
-			}
+			})
 		}
 	}
 	a, b := absint.FieldSym(FP, "a"), absint.FieldSym(FP, "b")
@@ -264,16 +267,16 @@ func C12(p *load.Prog, r *report.Report) {
 			r.Undecided("C12.anchor", "field.Element."+c.meth, "", "method not found")
 			continue
 		}
-		if res := runStraight(p, r, "C12.predicate", "field.Element."+c.meth, fn, func(it *absint.Interp) []absint.Value {
+		runEach(p, r, "C12.predicate", "field.Element."+c.meth, fn, func(it *absint.Interp) []absint.Value {
 			args := []absint.Value{ptr(m.newFE(it, "a", a))}
 			if c.args == 2 {
 				args = append(args, ptr(m.newFE(it, "b", b)))
 			}
 			return args
-		}); res != nil {
+		}, func(res *absint.PathResult) {
 			got, ok := retTerm(res.It, res.Ret)
-			r.Check(ok && got.Equal(c.want), "C12.predicate", "field.Element."+c.meth, p.Pos(fn.Pos()), "result = "+c.what, fmt.Sprintf("result is %s, expected %s", absint.Show(res.Ret), c.want))
-		}
+			r.Check(ok && got.Equal(st(res, c.want)), "C12.predicate", "field.Element."+c.meth, p.Pos(fn.Pos()), "result = "+c.what, fmt.Sprintf("result is %s, expected %s", absint.Show(res.Ret), c.want))
+		})
 	}
 	if fn := p.Method(p.Field, "Element", "CMove"); fn != nil {
 		c := absint.SymBool("c")
@@ -281,7 +284,7 @@ func C12(p *load.Prog, r *report.Report) {
 			construct := "field.Element.CMove (" + pat + ")"
 			e0 := absint.FieldSym(FP, "e")
 			uu, vv := a, b
-			if res := runStraight(p, r, "C12.cmove", construct, fn, func(it *absint.Interp) []absint.Value {
+			runEach(p, r, "C12.cmove", construct, fn, func(it *absint.Interp) []absint.Value {
 				eo := m.newFE(it, "e", e0)
 				uo, vo := eo, eo
 				if pat != "u is the receiver" {
@@ -291,7 +294,7 @@ func C12(p *load.Prog, r *report.Report) {
 					vo = m.newFE(it, "b", b)
 				}
 				return []absint.Value{ptr(eo), absint.TermV{T: c}, ptr(uo), ptr(vo)}
-			}); res != nil {
+			}, func(res *absint.PathResult) {
 				if pat == "u is the receiver" {
 					uu = e0
 				}
@@ -299,9 +302,9 @@ func C12(p *load.Prog, r *report.Report) {
 					vv = e0
 				}
 				got, why := res.It.ReadMont(FP, m.limbCell(res.It.InputRoots()[0]))
-				want := cmov(uu, vv, c)
+				want := sp(res, cmov(uu, vv, c))
 				r.Check(why == "" && got.Equal(want), "C12.cmove", construct, p.Pos(fn.Pos()), "receiver = ite(c, v, u) for a 0/1 condition", fmt.Sprintf("receiver is %v, expected %s", got, want))
-			}
+			})
 		}
 	}
 	// Reduce on four symbolic words
@@ -309,43 +312,43 @@ func C12(p *load.Prog, r *report.Report) {
 	if fn := p.Field.Func("Reduce"); fn != nil {
 		w := []*absint.Term{absint.SymWord("x0"), absint.SymWord("x1"), absint.SymWord("x2"), absint.SymWord("x3")}
 		X := absint.LiftLimbs(w)
-		if res := runStraight(p, r, "C12.reduce", "field.Reduce", fn, func(it *absint.Interp) []absint.Value {
+		runEach(p, r, "C12.reduce", "field.Reduce", fn, func(it *absint.Interp) []absint.Value {
 			o := it.NewObject(fn.Params[0].Type().(*types.Pointer).Elem(), "x", true)
 			for i, c := range o.Root.Kids {
 				c.Val = absint.TermV{T: w[i]}
 			}
 			return []absint.Value{ptr(o)}
-		}); res != nil {
+		}, func(res *absint.PathResult) {
 			got, ok := res.It.ReadInt(res.It.InputRoots()[0])
 			flag, fok := retTerm(res.It, res.Ret)
-			lt := absint.LT(X, pT)
-			want := X.Sub(pT).Add(lt.Scale(FP.M))
+			lt := st(res, absint.LT(X, pT))
+			want := st(res, X.Sub(pT).Add(absint.LT(X, pT).Scale(FP.M)))
 			r.Check(ok && fok && got.Equal(want) && flag.Equal(lt), "C12.reduce", "field.Reduce", p.Pos(fn.Pos()), "x := ite(x < p, x, x - p), returns [x < p], with p's limbs as written in the code", fmt.Sprintf("x becomes %v and the flag %v; expected %s and %s", got, flag, want, lt))
-		}
+		})
 	} else {
 		r.Undecided("C12.anchor", "field.Reduce", "", "function not found")
 	}
 	if fn := p.Method(p.Field, "Element", "FromBytesWithReduce"); fn != nil {
 		X := os2ip("in", 0, 32)
-		if res := runStraight(p, r, "C12.parse", "field.Element.FromBytesWithReduce", fn, func(it *absint.Interp) []absint.Value {
+		runEach(p, r, "C12.parse", "field.Element.FromBytesWithReduce", fn, func(it *absint.Interp) []absint.Value {
 			return []absint.Value{ptr(m.newFE(it, "e", pInt(FP, 0))), symByteArray(it, "in", 32)}
-		}); res != nil {
+		}, func(res *absint.PathResult) {
 			tup, _ := res.Ret.(absint.Tuple)
 			good := false
 			if len(tup) == 2 {
 				got, why := res.It.ReadMont(FP, m.limbCell(res.It.InputRoots()[0]))
 				flag, fok := retTerm(res.It, tup[1])
-				good = why == "" && fok && got.EqualMod(absint.EmbTerm(FP, X)) && flag.Equal(absint.LT(X, pT))
+				good = why == "" && fok && got.EqualMod(sp(res, absint.EmbTerm(FP, X))) && flag.Equal(st(res, absint.LT(X, pT)))
 			}
 			r.Check(good, "C12.parse", "field.Element.FromBytesWithReduce", p.Pos(fn.Pos()), "value = OS2IP(in) mod p, flag = [OS2IP(in) < p]", "the parser does not return (OS2IP(in) mod p, [OS2IP(in) < p])")
-		}
+		})
 	} else {
 		r.Undecided("C12.anchor", "field.Element.FromBytesWithReduce", "", "method not found")
 	}
 	if fn := p.Method(p.Field, "Element", "Bytes"); fn != nil {
-		if res := runStraight(p, r, "C12.serialise", "field.Element.Bytes", fn, func(it *absint.Interp) []absint.Value {
+		runEach(p, r, "C12.serialise", "field.Element.Bytes", fn, func(it *absint.Interp) []absint.Value {
 			return []absint.Value{ptr(m.newFE(it, "a", a))}
-		}); res != nil {
+		}, func(res *absint.PathResult) {
 			bs, ln, ok := res.It.SliceContent(res.Ret)
 			good := ok && len(bs) == 32
 			if good {
@@ -355,22 +358,22 @@ func C12(p *load.Prog, r *report.Report) {
 			}
 			ca := absint.CanonOf(FP, a)
 			for k := 0; good && k < 32; k++ {
-				good = bs[k].Equal(absint.ByteOf(ca, 31-k))
+				good = bs[k].Equal(st(res, absint.ByteOf(ca, 31-k)))
 			}
 			r.Check(good, "C12.serialise", "field.Element.Bytes", p.Pos(fn.Pos()), "BE32(Canon(a))", "the serialiser does not emit the canonical big-endian value")
-		}
+		})
 	} else {
 		r.Undecided("C12.anchor", "field.Element.Bytes", "", "method not found")
 	}
 	if fn := p.Method(p.Field, "Element", "HashToFieldElement"); fn != nil {
 		X := os2ip("in", 0, 48)
-		if res := runStraight(p, r, "C12.wide", "field.Element.HashToFieldElement", fn, func(it *absint.Interp) []absint.Value {
+		runEach(p, r, "C12.wide", "field.Element.HashToFieldElement", fn, func(it *absint.Interp) []absint.Value {
 			return []absint.Value{ptr(m.newFE(it, "e", pInt(FP, 0))), symByteArray(it, "in", 48)}
-		}); res != nil {
+		}, func(res *absint.PathResult) {
 			got, why := res.It.ReadMont(FP, m.limbCell(res.It.InputRoots()[0]))
-			want := absint.EmbTerm(FP, X)
+			want := sp(res, absint.EmbTerm(FP, X))
 			r.Check(why == "" && got.EqualMod(want), "C12.wide", "field.Element.HashToFieldElement", p.Pos(fn.Pos()), "value = OS2IP(48 bytes) mod p (a + b·2^192 with the code's Montgomery constants)", fmt.Sprintf("the wide reduction does not return the input integer mod p (%s)", why))
-		}
+		})
 	} else {
 		r.Undecided("C12.anchor", "field.Element.HashToFieldElement", "", "method not found")
 	}
